@@ -49,7 +49,7 @@ def jobs_for(tier):
     return jobs
 
 
-def apalache(module, inv):
+def apalache(module, inv, init='Init', length=1):
     """Run Apalache on spec/<module>.tla; returns (ok, seconds).  ok = invariant holds for unbounded integers."""
     import shutil
     import subprocess
@@ -58,7 +58,8 @@ def apalache(module, inv):
     out = tempfile.mkdtemp(prefix='apa-', dir=config.workdir('tlc'))
     t0 = time.time()
     try:
-        proc = subprocess.run(['apalache-mc', 'check', '--init=Init', '--next=Next', '--inv=' + inv, '--length=1',
+        proc = subprocess.run(['apalache-mc', 'check', '--init=' + init, '--next=Next', '--inv=' + inv,
+                               '--length=%d' % length,
                                '--out-dir=' + out, os.path.join(config.SPEC, module + '.tla')],
                               cwd=config.SPEC, stdout=subprocess.PIPE, stderr=subprocess.STDOUT, timeout=900)
         text = proc.stdout.decode('utf-8', 'replace')
@@ -110,6 +111,18 @@ def run(tier, seed):
     if bad[0]:
         raise runner.MachineryError('Apalache accepted the deliberately false WrongLemma')
     checks.append('%s: WrongLemma refuted by Apalache as intended (non-vacuity)' % mods[0])
+    # the switch / restore discipline for call histories of any length: inductive invariant of SessionInd.tla
+    steps = [('Init', 'IndInv', 0), ('IndInv', 'IndInv', 1), ('IndInv', 'Goal', 0)]
+    with ThreadPoolExecutor(max_workers=4) as pool:
+        souts = list(pool.map(lambda st: apalache('MC_SessionInd', st[1], init=st[0], length=st[2]), steps))
+        sbad = apalache('MC_SessionInd', 'WrongInv', init='Init', length=4)
+    for (ini, inv, ln), (ok, secs) in zip(steps, souts):
+        if not ok:
+            raise runner.MachineryError('Apalache: SessionInd step %s => %s (length %d) fails' % (ini, inv, ln))
+    if sbad[0]:
+        raise runner.MachineryError('Apalache accepted the deliberately false WrongInv of SessionInd')
+    checks.append('MC_SessionInd (Apalache, histories of any length): Init => IndInv, IndInv /\\ Next => IndInv\', '
+                  'IndInv => ModesRestored /\\ NoLeak (%.0fs); WrongInv refuted as intended' % sum(x[1] for x in souts))
     return {'engine': 'EM', 'cases': len(jobs), 'traces': 0, 'states': states, 'transitions': trans,
             'fails': [], 'samples': [{'config': j[1], 'module': j[0], 'expects_violation_of': j[2]} for j in jobs[:2] + jobs[-2:]],
             'model_checks': checks, 'exhaustive': True,
